@@ -579,6 +579,9 @@ impl Ctx for UniCtx {
     fn extra_entry_points(&self, b: &Value) -> Result<Vec<(String, CircV)>, String> {
         next_layer_uni(self.air, b)
     }
+    fn fri_arg_mutants(&self, b: &Value) -> Result<Vec<(String, CircV)>, String> {
+        fri_arg_mutants(self.air, b)
+    }
 }
 
 impl UniCompiled {
